@@ -159,8 +159,11 @@ class C16(Engine):
         withdef = emits[: max(6, len(emits) // 2 if not q else 8)] + hasdef
         rng.shuffle(cands)
         n = 56 if q else 1200
+        # files with a diagnostic that carries several highlights at different positions (the formats must agree on which one is shown)
+        multi_hl = [f for f in cands if any(len(set((h[0], h[1]) for h in d[3])) > 1 for d in (P.alone[f].get("diags") or []))]
+        rng.shuffle(multi_hl)
         self.depth_ids = set(f for f in cands if P.meta[f]["group"] == "special_depth")
-        zoo = [f for f in cands if P.meta[f]["group"] == "special_zoo"] + sorted(self.depth_ids)
+        zoo = [f for f in cands if P.meta[f]["group"] == "special_zoo"] + sorted(self.depth_ids) + multi_hl[: (6 if q else 60)]
         late = [f for f in cands if P.meta[f]["group"] == "viol" and any(t in P.meta[f]["origin"] for t in ("_late", "late_", "long_preamble"))]
         zoo += late[: (4 if q else 100)] + [f for f in self.late_ids if f in cands]
         chosen = withdef[: n // 3] + [f for f in self.edge_ids if f in cands][: n // 3] + zoo
@@ -227,6 +230,15 @@ class C16(Engine):
             rsc = {"files": {"r": {"name": name, "content": f["content"]}}, "tree": {name: "@r"},
                    "ops": [{"op": "cli", "argv": argv_of(sc["ref"], name, f["content"])}]}
             out.append((self.ref_key(name, f), rsc))
+            d = sc["vec"]["dbg"]
+            if d and sc.get("kind") != "multi":
+                # the reference vector at the variant's own debug level (across levels the statement excludes fatal/verdict pairs,
+                # within one level it does not)
+                refd = dict(sc["ref"])
+                refd["dbg"] = d
+                rsc = {"files": {"r": {"name": name, "content": f["content"]}}, "tree": {name: "@r"},
+                       "ops": [{"op": "cli", "argv": argv_of(refd, name, f["content"])}]}
+                out.append((self.ref_key(name, f) + (d,), rsc))
         return out
 
     def ref_key(self, name, f):
@@ -279,6 +291,30 @@ class C16(Engine):
                                 "the variant ends with a fatal diagnostic where the reference run reaches a verdict",
                                 {"file": f["name"], "variant_argv": short_argv(argv), "stdout_head": strip_ansi(o_var.get("stdout", ""))[:120]}))
             return vs
+        if v["dbg"]:
+            # same-level comparison: the plain vector at this debug level against the variant at this debug level
+            rd = refs.get(self.ref_key(name, f) + (v["dbg"],))
+            if rd is not None and not rd.get("killed"):
+                o_refd = rd["ops"][0]
+                ad = file_result(o_refd)
+                others = [k for k in ("nocol", "fmt", "o", "Rkind", "inline") if v[k] != sc["ref"][k]]
+                if ad is not None and b is None and o_var.get("end") == "exit" and others:
+                    vs.append(Violation(self.prop, "C16.a-same-findings",
+                                        f"at debug level {v['dbg']} the plain run reaches a verdict but the variant ends with a fatal diagnostic",
+                                        {"file": f["name"], "options_changed": "+".join(others), "variant_argv": short_argv(argv)}))
+                    return vs
+                if ad is None and b is not None and o_refd.get("end") == "exit" and others:
+                    vs.append(Violation(self.prop, "C16.a-same-findings",
+                                        f"at debug level {v['dbg']} the plain run ends with a fatal diagnostic but the variant reaches a verdict",
+                                        {"file": f["name"], "options_changed": "+".join(others), "variant_argv": short_argv(argv)}))
+                    return vs
+                if ad is not None and b is not None and a is None:
+                    # no level-0 verdict to compare with: compare within the level
+                    refd = dict(sc["ref"])
+                    refd["dbg"] = v["dbg"]
+                    sc_d = dict(sc)
+                    sc_d["ref"] = refd
+                    return self.compare(sc_d, v, f, ad, b, o_refd, argv, f"(debug level {v['dbg']}) ", o_var)
         if a is None or b is None:
             return vs
         return self.compare(sc, v, f, a, b, o_ref, argv, "", o_var)
